@@ -19,7 +19,7 @@ import z3
 
 VERIF = os.path.dirname(os.path.dirname(os.path.abspath(__file__)))
 sys.path.insert(0, VERIF)
-from mirsym.engine import Engine, State, Unsupported, Outcome  # noqa
+from mirsym.engine import Engine, State, Unsupported, Outcome, Budget  # noqa
 from mirsym.values import *  # noqa
 from mirsym import smt  # noqa
 
@@ -394,7 +394,7 @@ class Ctx:
             'traces_validated_against_impl': self.validated,
             'samples': samples or [{'note': 'no obligations'}],
             'checker_cmd': 'cvc5 --lang smt2 | z3-new | /usr/bin/z3 on SMT-LIB2 files under build/smt/%s-%s (tier %s: %s)' % (
-                self.pid, self.tier, self.tier, 'first definite answer' if self.tier == 'quick' else 'all solvers must agree'),
+                self.pid, self.tier, self.tier, 'first definite answer' if self.tier == 'quick' else 'cvc5 decides, z3-new and z3 4.8 cross-check (all obligations up to 400, else a fixed sample of 400; a different answer or an (error line is inconclusive)'),
             'trusted_base': ['rustc -Zunpretty=mir printer (pinned nightly)', 'mirsym MIR executor (validated per kernel against the real code, see traces_validated_against_impl)',
                              'cvc5 1.0 / z3 5.1 / z3 4.8.12'] + ['summary: ' + k for k in sorted(intr)] + ['uninterpreted: ' + k for k in sorted(unint)] + self.env_extra,
             'functions_encoded': [{'fn': k, 'mir_fingerprint': v} for k, v in sorted(fns.items())],
